@@ -7,31 +7,12 @@
 // Label types L: int, std::string, std::unique_ptr<int> (move-only), tree<int> (nested).
 // It contains no expected values: spec/TreeTrace.tla (TLC) is the judge.
 //
-//   c09_tree record OUT seed histories maxlen [assign-from-descendant 0|1] [int|str|uptr|tree]
-//   c09_tree replay SCRIPTS.ndjson OUT [int|str|uptr|tree] [stride] [phase]
-#include <cstdio>
-#include <string>
+//   c09_tree record OUT seed histories maxlen [assign-from-descendant 0|1] [label type, ignored]
+//   c09_tree replay SCRIPTS.ndjson OUT [label type, ignored] [stride] [phase]
+// This file is the PRIMARY harness (label type int).  The other label types are separate binaries
+// (c09_tree_l_str.cpp, c09_tree_l_uptr.cpp, c09_tree_l_tree.cpp) and the log context's tree is
+// c09_logtree.cpp: if one of those does not compile against the tree under test, the check records
+// that as an observation and carries on - they cannot block the judgement of the int histories.
+#include "c09_run.hpp"
 
-int c09_run_int(std::string const &, int, char **);
-int c09_run_str(std::string const &, int, char **);
-int c09_run_uptr(std::string const &, int, char **);
-int c09_run_tree(std::string const &, int, char **);
-
-int main(int argc, char **argv)
-{
-  if (argc < 4)
-  {
-    std::fprintf(stderr, "usage: c09_tree record OUT seed histories maxlen [desc] [lt] | replay SCRIPTS OUT [lt stride phase]\n");
-    return 3;
-  }
-  std::string const mode = argv[1];
-  std::string lt = "int";
-  if (mode == "record" && argc >= 6) { if (argc >= 8) lt = argv[7]; }
-  else if (mode == "replay") { if (argc >= 5) lt = argv[4]; }
-  else return 3;
-  if (lt == "int") return c09_run_int(mode, argc, argv);
-  if (lt == "str") return c09_run_str(mode, argc, argv);
-  if (lt == "uptr") return c09_run_uptr(mode, argc, argv);
-  if (lt == "tree") return c09_run_tree(mode, argc, argv);
-  return 3;
-}
+int main(int argc, char **argv) { return c09::main_for<int>(argc, argv); }
